@@ -236,10 +236,13 @@ type e2eCase struct {
 	// Back > 0 (play only): the served description has an additional back-channel media at index Back-1,
 	// which the client does not ask for: the medias it sees are numbered differently from the server's
 	Back int `json:"back_channel_at,omitempty"`
+	// Tunnel: "" | "http" | "ws": the control connection travels inside RTSP-over-HTTP / WebSocket (the URL also
+	// appears in the HTTP request lines of the tunnel)
+	Tunnel string `json:"tunnel,omitempty"`
 }
 
 func (c e2eCase) key() string {
-	return c.Spec.key() + string(byte('0'+c.N)) + c.Flow + string(byte('0'+c.Back))
+	return c.Spec.key() + string(byte('0'+c.N)) + c.Flow + string(byte('0'+c.Back)) + c.Tunnel
 }
 
 func (c e2eCase) features() []string {
@@ -250,18 +253,24 @@ func (c e2eCase) features() []string {
 	if c.Back > 0 {
 		f = append(f, "unrequested-back-channel-before-a-media")
 	}
+	if c.Tunnel != "" {
+		f = append(f, c.Tunnel+"-tunnel")
+	}
 	return f
 }
 
 func (c e2eCase) simpler() []e2eCase {
 	var out []e2eCase
 	for _, s := range c.Spec.simpler() {
-		out = append(out, e2eCase{Spec: s, N: c.N, Flow: c.Flow, Back: c.Back})
+		out = append(out, e2eCase{Spec: s, N: c.N, Flow: c.Flow, Back: c.Back, Tunnel: c.Tunnel})
 	}
 	if c.N > 1 && c.Back == 0 {
 		out = append(out, e2eCase{Spec: c.Spec, N: c.N - 1, Flow: c.Flow})
 	}
 	if c.Back > 0 {
+		out = append(out, e2eCase{Spec: c.Spec, N: c.N, Flow: c.Flow})
+	}
+	if c.Tunnel != "" {
 		out = append(out, e2eCase{Spec: c.Spec, N: c.N, Flow: c.Flow})
 	}
 	return out
@@ -274,12 +283,14 @@ type e2eSpace struct{ specs []urlSpec }
 
 func newE2ESpace(thorough bool) *e2eSpace { return &e2eSpace{specs: enumSpecs(thorough)} }
 
-const perSpec = 3*2 + 2
+const perSpec = 3*2 + 2 + 2
 
 func (s *e2eSpace) Len() int { return len(s.specs) * perSpec }
 
 func (s *e2eSpace) At(i int) e2eCase {
-	if j := i % perSpec; j >= 6 {
+	if j := i % perSpec; j >= 8 {
+		return e2eCase{Spec: s.specs[i/perSpec], N: 1, Flow: "play", Tunnel: []string{"http", "ws"}[j-8]}
+	} else if j >= 6 {
 		return e2eCase{Spec: s.specs[i/perSpec], N: 2, Flow: "play", Back: j - 5}
 	}
 	i = i/perSpec*6 + i%perSpec
